@@ -195,12 +195,15 @@ def sweep_shm():
 
 def run(ctx):
     ctx.rule = ("cases = (a) valid dumps made by the real logger (`mk S; r …; dump`: blackbox sizes around page multiples, "
-                "0-120 records, formats/arguments from a safe set, scripted time stamps) and (b) laid out by the generator "
+                "0-120 records, formats/arguments from a safe set incl. `%s` with a field width or an argument-supplied width/"
+                "precision FOLLOWED by further conversions, scripted time stamps; the printed message is compared with what "
+                "snprintf makes of the logged format and arguments) and (b) laid out by the generator "
                 "(new and old format, ring start steered to the wrap point), printed and compared record by record; "
                 "(c) hostile files: truncations of valid dumps (all lengths < 64, a stride, the last 64; thorough: every "
                 "length), header words set to boundary values with the hash recomputed and a chunk magic planted where "
                 "a bogus read pointer lands, chunk size/magic words, planted chunk headers, first-record fields aimed at "
-                "each limit (fn_size, unterminated function, msg_len, hostile message bytes, records filling the chunk "
+                "each limit and to values just below 2^32 in every length field (header words, chunk size, fn_size, msg_len; "
+                "unterminated function, hostile message bytes, records filling the chunk "
                 "buffer, time stamp extremes), random multi-byte damage, arbitrary byte strings with and without a "
                 "plausible header.  Non-trivial = prints a record, reaches a corrupt-record diagnostic, a result code "
                 "other than -EIO, a wrapped or overwritten ring; distinct by SHA1 of the op lines")
